@@ -43,7 +43,7 @@ def case_key(c):
     return (c["d"], tuple(c["raw"]), c["start"])
 
 
-def run_mc_waves(v, universe, invariants, lenbonus=0, label=None, timeout=6000, nparts=8, width=8):
+def run_mc_waves(v, universe, invariants, lenbonus=0, label=None, timeout=6000, nparts=8, width=8, emit=True):
     """TLC over the universe, split over `nparts` TLC processes by declaration index (a forest of tiny trees over
     large state values scales badly over TLC worker threads, well over processes), `width` of them at a time.
     Yields one merged TLCResult per wave, so that the exported behaviours of a large profile never sit in
@@ -54,7 +54,7 @@ def run_mc_waves(v, universe, invariants, lenbonus=0, label=None, timeout=6000, 
     for w0 in range(0, nparts, width):
         ks = list(range(w0, min(nparts, w0 + width)))
         with ThreadPoolExecutor(len(ks)) as ex:
-            futs = [ex.submit(run_tlc, "MC_Packet", cfg_text=mc_cfg(universe, invariants, lenbonus, True, k, nparts),
+            futs = [ex.submit(run_tlc, "MC_Packet", cfg_text=mc_cfg(universe, invariants, lenbonus, emit, k, nparts),
                               timeout=timeout, workers=2, heap="3g") for k in ks]
             parts = [f.result() for f in futs]
         res = parts[0]
